@@ -115,3 +115,35 @@ class WhileInvariant:
         if interp.truth(interp.eval(st.test, fr)):
             raise sym.PathInfeasible()  # after the loop the guard is false
         interp.exec_block(st.orelse, fr)
+
+
+class BoundReached(Exception):
+    """A loop was cut at its stated iteration bound: the path ends quietly; what lies beyond is *bounded*, not proved."""
+
+
+class BoundedFor:
+    """Execute at most `bound` iterations of a `for` loop exactly; a path that needs more is cut and the cut is
+    recorded (the obligations generated so far stand; the contract must list the bound under `bounded`)."""
+
+    def __init__(self, bound):
+        self.bound = bound
+
+    def run_for(self, interp, st, fr, it):
+        n = 0
+        broke = False
+        for x in interp.iterate(it):
+            if n >= self.bound:
+                interp.ctx.note_assumption(f"loop cut after {self.bound} iterations (bounded)")
+                interp.ctx.bounded_cut = True
+                raise sym.PathEnd()
+            n += 1
+            interp.assign(st.target, x, fr)
+            try:
+                interp.exec_block(st.body, fr)
+            except _Break:
+                broke = True
+                break
+            except _Continue:
+                continue
+        if not broke:
+            interp.exec_block(st.orelse, fr)
